@@ -54,7 +54,7 @@ theorem hT_of_svcT {s s' : Stack} (h : svcT s' = svcT s) (a : Addr) (k : SvcKey)
   rw [← filter_for_svc (·.cb) s'.loop.timers, ← filter_for_svc (·.cb) s.loop.timers, h2]
 theorem hR_of_svcT {s s' : Stack} (h : svcT s' = svcT s) (a : Addr) (k : SvcKey) : hR s' a k = hR s a k := by
   have h2 : s'.loop.ready.filter (fun t => isSvcExpiry t.cb) = s.loop.ready.filter (fun t => isSvcExpiry t.cb) :=
-    congrArg (fun p => p.2.2) h
+    congrArg (fun p => p.2.2.1) h
   unfold hR
   rw [← filter_for_svc (·.cb) s'.loop.ready, ← filter_for_svc (·.cb) s.loop.ready, h2]
 theorem held_of_svcT {s s' : Stack} (h : svcT s' = svcT s) (a : Addr) (k : SvcKey) : held s' a k = held s a k := by
